@@ -68,12 +68,14 @@ partial def render : Sx → String
 /-- Tokenise: parentheses are their own tokens; atoms are maximal runs of other non-space chars. -/
 def lex (cs : List Char) : List String :=
   let rec go (cs : List Char) (cur : List Char) (acc : List String) : List String :=
-    let flush := if cur.isEmpty then acc else String.ofList cur.reverse :: acc
+    -- `flush` is a thunk: a strict `let` here would rebuild the pending atom on every character
+    -- (quadratic in the length of an atom; an 32 kB hex payload took half a minute).
+    let flush := fun (_ : Unit) => if cur.isEmpty then acc else String.ofList cur.reverse :: acc
     match cs with
-    | [] => flush.reverse
+    | [] => (flush ()).reverse
     | c :: rest =>
-      if c = '(' ∨ c = ')' then go rest [] (String.singleton c :: flush)
-      else if c = ' ' ∨ c = '\n' ∨ c = '\r' ∨ c = '\t' then go rest [] flush
+      if c = '(' ∨ c = ')' then go rest [] (String.singleton c :: flush ())
+      else if c = ' ' ∨ c = '\n' ∨ c = '\r' ∨ c = '\t' then go rest [] (flush ())
       else go rest (c :: cur) acc
   go cs [] []
 
